@@ -97,6 +97,10 @@ def main(tier, replay):
     nrand = 5000 if tier == 'quick' else 30000
     cases = [('r%d' % i, 'rand', base + i, ('lua', 'promela', 'lua')[i % 3], None) for i in range(nrand)]
     cases += [('n%d' % i, 'rand', base + 700000 + i, 'null', None) for i in range(nrand // 4)]
+    for i in range(nrand // 8):
+        for nm, g in (('k', C.gen_conflict_chart), ('d', C.gen_done_chart), ('h', C.gen_hist_chart)):
+            ch, h = g(base + 900000 + i)
+            cases.append(('%s%d' % (nm, i), 'fam', ch, ('lua', 'null')[i % 2], h))
     fam = list(C.family_E(2, 2)) if tier == 'quick' else list(C.family_E(3, 2))
     n = 0
     for ch in fam:
